@@ -10,7 +10,11 @@ def add_faults(rng, case, g):
     # provider restart with a new SequenceId somewhere in the second half, then (sometimes) a reload
     if rng.random() < 0.5 and len(ops) > 3:
         pos = rng.randint(len(ops) // 2, len(ops) - 1)
-        ops.insert(pos, {'k': 'reseq', 'n': rng.randint(1, 9), 'inst': rng.random() < 0.5})
+        if rng.random() < 0.45:
+            # only the InstanceId changes (absent -> number, number -> absent, 0 <-> absent, number -> other number)
+            ops.insert(pos, {'k': 'reseq', 'n': rng.randint(1, 9), 'seq': False, 'inst': rng.choice(['none', 'zero', 'next'])})
+        else:
+            ops.insert(pos, {'k': 'reseq', 'n': rng.randint(1, 9), 'inst': rng.random() < 0.5})
     if rng.random() < 0.6:
         reload = {'k': 'reload', 'inflight': rng.random() < 0.7,
                   # in half of the reloads a report arrives on another thread while the buffered ones are replayed
